@@ -417,6 +417,17 @@ func Eq(a, b *Term) *Term {
 			return Not(a)
 		}
 	}
+	// str_of_bytes_n is an injective encoding of n bytes (different n: different strings)
+	if a.Op == OpUF && b.Op == OpUF && strings.HasPrefix(a.S, "str_of_bytes_") && strings.HasPrefix(b.S, "str_of_bytes_") {
+		if a.S != b.S {
+			return False
+		}
+		cs := make([]*Term, len(a.Args))
+		for i := range a.Args {
+			cs[i] = Eq(a.Args[i], b.Args[i])
+		}
+		return And(cs...)
+	}
 	// decimal rendering is injective on non-negative integers; bv2nat is injective
 	if a.Op == OpSFromInt && b.Op == OpSFromInt && nonNeg(a.Args[0]) && nonNeg(b.Args[0]) {
 		return Eq(a.Args[0], b.Args[0])
